@@ -2,7 +2,7 @@
 from vx.extract import C
 from .exec_common import exec_unit, begin_ast, end_ast, FOOTER
 
-PROPS = ['C03', 'C02', 'C01']
+PROPS = ['C03', 'C02', 'C16', 'C01']
 
 
 def build(repo, findings):
